@@ -179,6 +179,7 @@ func runC06(c *runCtx) {
 	}
 	inputs = append(inputs, builtinCorpus...)
 	inputs = append(inputs, repoCorpus()...)
+	inputs = append(inputs, c06HostileLists()...)
 	// the node types the CLI formatter knows (regenerated from its source)
 	cliCases := map[string][]string{}
 	if raw, err := os.ReadFile(verifDir + "/gen/cli_formatter.json"); err == nil {
@@ -570,7 +571,7 @@ var c06Places = []c06Place{
 
 var c06Spellings = []struct{ class, name string }{
 	{"plain", `plain_name`}, {"quoted-plain", `"quoted_plain"`}, {"blank", `"first name"`}, {"dash", `"order-items"`}, {"dot", `"a.b"`}, {"upper-and-blank", `"Mixed Case"`},
-	{"digit-first", `"1st"`}, {"quote-inside", `"x""y"`}, {"non-ascii", `"naïve col"`}, {"punctuation", `"a;b"`}, {"blank", `"with  two blanks"`}, {"dash", `"x-1"`},
+	{"digit-first", `"1st"`}, {"quote-inside", `"x""y"`}, {"non-ascii", `"naïve col"`}, {"punctuation", `"a;b"`}, {"blank", `"with  two blanks"`}, {"dash", `"x-1"`}, {"punctuation", `"a, b"`}, {"punctuation", `"x) , (y"`}, {"punctuation", `"--"`},
 }
 
 // identifierPlaces: the places whose name is written by Identifier.SQL (which quotes what it takes for unsafe); the other
@@ -670,4 +671,34 @@ func serFamily(n string) string {
 		return n[:i]
 	}
 	return n
+}
+
+// c06HostileLists: lists long enough to pass any line width a formatter might wrap at, whose items are literals and quoted
+// names containing what a formatter working on rendered text might take for structure: separators, blanks, keywords,
+// parentheses, comment openers, statement ends, line breaks
+func c06HostileLists() []string {
+	hostile := []string{", ", " ,", ",", "  ", " AND ", " FROM ", "(", ")", "((", "--", "/*", "*/", ";", "a, b, c", "x) , (y", ", ''", "\t", " OR 1=1 -- "}
+	frames := []string{"SELECT {L} FROM t", "SELECT a FROM t GROUP BY {L}", "SELECT a FROM t ORDER BY {L}", "SELECT f({L}) FROM t", "SELECT a FROM t WHERE x IN ({L})",
+		"INSERT INTO t VALUES ({L})", "SELECT a FROM t WHERE b = 1 AND c IN ({L}) AND d = 2 ORDER BY {L}"}
+	var out []string
+	for hi, h := range hostile {
+		lit := "'" + strings.ReplaceAll(h, "'", "''") + "'"
+		for fi, fr := range frames {
+			var items []string
+			for k := 0; k < 9; k++ {
+				switch (k + hi + fi) % 4 {
+				case 0:
+					items = append(items, fmt.Sprintf("column_name_%02d", k))
+				case 1:
+					items = append(items, lit)
+				case 2:
+					items = append(items, "first_name || "+lit+" || last_name")
+				default:
+					items = append(items, fmt.Sprintf("c%d", k))
+				}
+			}
+			out = append(out, strings.ReplaceAll(fr, "{L}", strings.Join(items, ", ")))
+		}
+	}
+	return out
 }
